@@ -272,6 +272,11 @@ def _spec_is_deepcopy(ex, args, kwargs, s):
     yield s, BVal(IsDeepCopy(to_v(args[0], s), to_v(args[1], s)))
 
 
+def _spec_is_new(ex, args, kwargs, s):
+    from pyvc.engine import to_v
+    yield s, BVal(z3.Not(smt.Alloc0(to_v(args[0], s))))
+
+
 def _spec_forall_keys(ex, args, kwargs, s):
     """forall_keys(lambda k: P, ...): symbolically a quantifier over ALL string values (the listed universes are ignored)."""
     from pyvc.engine import truth
@@ -349,6 +354,7 @@ LIBRARY = {
     "contracts.specrt.forall_keys": _spec_forall_keys,
     "copy.deepcopy": _lib_deepcopy,
     "contracts.specrt.is_deepcopy": _spec_is_deepcopy,
+    "contracts.specrt.is_new": _spec_is_new,
 }
 CTOR_FIELDS = {}
 CTORS = {}
